@@ -118,6 +118,20 @@ def persistent_configs(tier):
     return out
 
 
+def dead_leader_configs(tier):
+    """A leader dies for good (port closed) at any point; its partitions move to the other broker."""
+    out = []
+    for acks, batched, attempts in itertools.product([1, 0], [False, True], [1, 3]):
+        prod = {"acks": acks, "max_req_attempts": attempts, "retry_interval": 0.25}
+        if batched:
+            prod.update(batch_send=True, batch_every_n=2, batch_every_b=0, batch_every_t=0)
+        out.append({"cluster": CLUSTER, "discovery": False, "producer": prod, "timeout_ms": 2000,
+                    "script": S_TWO + [["send", "u", None, ["c0"]], ["send", "t", None, ["d0"]]],
+                    "menu": {"cluster_events": [["kill", 1, 2], ["kill", 2, 1]], "timer_early": True,
+                             "app_early": True}})
+    return out
+
+
 RULE = ("real Producer+KafkaClient against a 2-broker virtual cluster (topic t: 2 partitions on different leaders, "
         "topic u: 1).  Configurations: acks {1,0,-1} x batched/unbatched x codec {none,gzip,snappy-shim} x attempt "
         "limit {1,2,3} x discovery {off, modern broker, legacy broker}; scripts of 2-3 sends (null/empty/70KB values, "
@@ -125,7 +139,7 @@ RULE = ("real Producer+KafkaClient against a 2-broker virtual cluster (topic t: 
         "broker in both negotiated layouts.  Alphabet: correct reply, reply with produce error "
         "{3,5,6,7,10,19} for all or one partition, metadata error, silent broker, connection drop, refused connection, "
         "timer before pending I/O, application call before quiescence; plus sticky faults (same error / silence on "
-        "every attempt, or for 1-2 attempts).  Every schedule within the deviation bound runs to quiescence.  Oracle: "
+        "every attempt, or for 1-2 attempts); a leader dying for good at any point (acks 1 and 0).  Every schedule within the deviation bound runs to quiescence.  Oracle: "
         "each send Deferred fires exactly once; success value is a ProduceResponse (error 0, right topic) matching a "
         "request the partition leader applied that contains exactly the send's (key, value) list at that offset, or "
         "None for acks=0 after the bytes were written; never an exception object; nothing is written after stop().  "
@@ -140,12 +154,14 @@ def run(tier, seed, only=None):
                  ("half-configs-2dev", configs(tier)[::2], (1, 1, 2)),
                  ("core-2dev", core_configs(tier), (2, 1, 2)),
                  ("queued-stop-cancel", queued_configs(tier), (1, 1, 2)),
-                 ("persistent-faults", persistent_configs(tier), (0, 1, 1))]
+                 ("persistent-faults", persistent_configs(tier), (0, 1, 1)),
+                 ("dead-leader", dead_leader_configs(tier), (1, 1, 2))]
     else:
         plans = [("all-configs-3dev", configs(tier), (2, 1, 3)),
                  ("core-3dev", core_configs(tier), (2, 2, 3)),
                  ("queued-stop-cancel", queued_configs(tier), (2, 2, 3)),
-                 ("persistent-faults", persistent_configs(tier), (1, 1, 2))]
+                 ("persistent-faults", persistent_configs(tier), (1, 1, 2)),
+                 ("dead-leader", dead_leader_configs(tier), (1, 2, 3))]
     if only:
         plans = [p for p in plans if p[0] in only]
     return _dfs.run_plans(PROPERTY, SPEC, plans, seed, RULE, ASSUME)
